@@ -444,6 +444,28 @@ def judge_matches(acc, ms, terms):
                      "request-anchor claim matching (%s): implementation %s, model %s" % (d["name"], d["result"], MATCH_RESULT[m]))
 
 
+def check_multi(ctx, acc, batch, rows):
+    ms = [d for d in rows if d["k"] == "multi"]
+    if not ms:
+        return
+    for d in ms:
+        acc.count("multi:%s@%s" % (d["name"], d["pos"]))
+        acc.case(["multi", d["name"], d["pos"], d.get("i")], True)
+        if d["result"] == "PANIC":
+            acc.viol({"case": d}, "verify_presentation_with_request_anchor panicked (%s at position %s)" % (d["name"], d["pos"]))
+        elif d["expect_ok"] != (d["result"] == "Verified"):
+            acc.viol({"case": d}, "three-credential presentation, %s at position %s of %s: %s" % (d["name"], d["pos"], d.get("kinds"), d["result"]))
+    vs = [d for d in ms if d.get("validity_case") and all(a is not None and b is not None for a, b in d["validities"])]
+    exprs = ["all_valid_at %d [%s]" % (d["now"], ";".join("(%d, %d)" % (a, b) for a, b in d["validities"])) for d in vs]
+
+    def judge(terms):
+        for d, t in zip(vs, terms):
+            if (t == "true") != (d["result"] == "Verified"):
+                acc.viol({"case": d, "model_all_valid_at": t, "theorem": "all_valid_at_iff"},
+                         "credential validity (%s at position %s): implementation %s, model all_valid_at = %s" % (d["name"], d["pos"], d["result"], t))
+    batch.add(exprs, judge)
+
+
 def check_lies(ctx, acc, rows, kf_ids):
     for d in rows:
         if d["k"] != "lie":
@@ -542,6 +564,41 @@ def judge_presentations(ctx, acc, rows, kf_ids, flow, index, terms):
                 acc.count("known:KF-C18-4")
                 continue
             acc.viol({"case": slim(d), "perturbation": name}, "%s presentation still verifies after perturbation %s (%s)" % (flow, name, kinds))
+        # JSON layer: every mutated JSON form that still parses
+        for row in d.get("json", []):
+            name = row[0]
+            acc.perturbation(flow + ":json:" + name.split(":")[-1], True)
+            if row[1] == "PANIC":
+                acc.viol({"case": slim(d), "mutation": name}, "%s: parsing a mutated presentation JSON panicked (%s)" % (flow, name))
+                continue
+            _, faithful, same, same_mod, ver = row
+            if ver == "PANIC":
+                acc.viol({"case": slim(d), "mutation": name}, "%s: verifier panicked on a parsed mutated JSON (%s)" % (flow, name))
+            if ver is not True:
+                continue
+            if not faithful:
+                if same and name.rsplit(":", 1)[0].endswith(("validFrom", "validUntil")):
+                    acc.count("observation: validFrom/validUntil are read at year-month granularity")
+                else:
+                    acc.viol({"case": slim(d), "mutation": name, "faithful": faithful, "same_struct": same},
+                             "%s: a mutated presentation JSON (%s) parses to something else than it says "
+                             "(re-serialisation differs) and verifies" % (flow, name))
+            elif not same:
+                if same_mod and name.startswith("json:proof.created"):
+                    acc.count("observation: the linking proof's `created` timestamp is not authenticated")
+                elif same_mod and flow == "v0" and "KF-C18-4" in kf_ids:
+                    ctx.known_finding("KF-C18-4", KF["KF-C18-4"])
+                    acc.count("known:KF-C18-4")
+                else:
+                    acc.viol({"case": slim(d), "mutation": name}, "%s: a presentation JSON altered by %s still verifies" % (flow, name))
+        for row in d.get("json_request", []):
+            acc.count("%s:json-request" % flow)
+            if row[0] == "roundtrip":
+                if row[2] is not True:
+                    acc.viol({"case": slim(d)}, "%s: request does not survive a JSON round trip" % flow)
+            elif row[1] is not True or row[2] is True:
+                acc.viol({"case": slim(d), "mutation": row[0], "faithful": row[1], "same_struct": row[2]},
+                         "%s: a mutated request JSON (%s) parses to something else than it says" % (flow, row[0]))
         for name, res in d.get("must_accept", []):
             acc.count("%s:control:%s" % (flow, name))
             if res is not True:
@@ -606,6 +663,7 @@ def run(ctx):
         check_presentations(ctx, acc, batch, pres, kf_ids, flow)
         nt = check_ties(ctx, acc, batch, pres)
         check_matches(ctx, acc, batch, prow)
+        check_multi(ctx, acc, batch, prow)
         check_lies(ctx, acc, prow, kf_ids)
         for d in prow:
             if d["k"] == "anchor":
